@@ -254,6 +254,14 @@ def rateDict (vars : List (σ × α)) (r : Reaction σ α) (keys : List σ) : Op
   | some _ => none
   | none => some (rxnRate (fun k => dgetD vars k ((0 : Nat) : α)) r keys)
 
+/-- `Reaction.rate` on a `variables` dict for a reaction whose `param` is given in one of the forms of `Param`
+    (`rate_expr` + `MassAction.__call__`): the rate constant is resolved first (`variables[name]` for a named constant), then the
+    ordinary rate dict is built with it; `none` = `KeyError` -/
+def rateDictP (vars : List (σ × α)) (p : Param σ α) (r : Reaction σ α) (keys : List σ) : Option (List (σ × α)) :=
+  match resolveParam vars p with
+  | none => none
+  | some k => rateDict vars { r with param := k } keys
+
 end Rates
 
 /-! ## Rates: the array path (`law_of_mass_action_rates`, `dCdt_list`) -/
@@ -402,12 +410,16 @@ def addCompKeys (acc : List Int) (oc : Option (Comp α)) : List Int :=
 def compositionKeys (subs : Substances σ α) : List Int :=
   subs.foldl (fun acc s => addCompKeys acc s.2) []
 
-/-- `Substance.composition_keys(substances, skip_keys)`: `if k in skip_keys: continue` inside the loop over a composition -/
+/-- body of the loop of `composition_keys(substances, skip_keys)` for one substance: `if k in skip_keys: continue` inside the
+    loop over the composition -/
+def addCompKeysSkipping (skip : List Int) (acc : List Int) (oc : Option (Comp α)) : List Int :=
+  match oc with
+  | none => acc
+  | some c => c.foldl (fun a kv => if skip.contains kv.1 then a else insertKey kv.1 a) acc
+
+/-- `Substance.composition_keys(substances, skip_keys)` -/
 def compositionKeysSkipping (skip : List Int) (subs : Substances σ α) : List Int :=
-  subs.foldl (fun acc s =>
-    match s.2 with
-    | none => acc
-    | some c => c.foldl (fun a kv => if skip.contains kv.1 then a else insertKey kv.1 a) acc) []
+  subs.foldl (fun acc s => addCompKeysSkipping skip acc s.2) []
 
 /-- `True` when some substance has `composition is None` -/
 def firstWithoutComposition : Substances σ α → Option σ
